@@ -101,10 +101,10 @@ STEP_NAMES = ['sa', 'sb', 'sc', 'sd']
 
 class LangGen:
     def __init__(self, rng: random.Random, n_assets=(1, 4), n_assocs=(1, 3), max_depth=3,
-                 dup_assoc_names=0.0, with_vars=True, with_existence=True, with_defenses=True):
+                 dup_assoc_names=0.0, with_vars=True, with_existence=True, with_defenses=True, reuse_fields=0.0):
         self.rng = rng
         self.cfg = dict(n_assets=n_assets, n_assocs=n_assocs, max_depth=max_depth, dup=dup_assoc_names,
-                        vars=with_vars, exist=with_existence, defs=with_defenses)
+                        vars=with_vars, exist=with_existence, defs=with_defenses, reuse=reuse_fields)
 
     def gen(self):
         rng, cfg = self.rng, self.cfg
@@ -116,16 +116,25 @@ class LangGen:
         assets = [asset(a, supers[a], abstract=(rng.random() < 0.1)) for a in names]
         # associations with globally unique field names
         m = rng.randint(*cfg['n_assocs'])
-        fields = list(FIELD_NAMES)
-        rng.shuffle(fields)
-        assocs = []
-        for j in range(m):
-            nm = ASSOC_NAMES[j] if rng.random() >= cfg['dup'] or j == 0 else ASSOC_NAMES[0]
-            la, ra = rng.choice(names), rng.choice(names)
-            mult = lambda: rng.choice([(0, None), (0, None), (0, 1), (1, 1), (1, None), (0, 2)])
-            assocs.append(assoc(nm, la, fields.pop(), ra, fields.pop(), mult(), mult()))
-        L = lang(assets, assocs)
-        st = Static(L)
+        reuse = rng.random() < cfg['reuse']
+        for attempt in range(20):
+            fields = list(FIELD_NAMES)
+            rng.shuffle(fields)
+            assocs = []
+            for j in range(m):
+                nm = ASSOC_NAMES[j] if rng.random() >= cfg['dup'] or j == 0 else ASSOC_NAMES[0]
+                la, ra = rng.choice(names), rng.choice(names)
+                mult = lambda: rng.choice([(0, None), (0, None), (0, 1), (1, 1), (1, None), (0, 2)])
+                if reuse:
+                    lf, rf = rng.choice(FIELD_NAMES[:3]), rng.choice(FIELD_NAMES[:3])
+                else:
+                    lf, rf = fields.pop(), fields.pop()
+                assocs.append(assoc(nm, la, lf, ra, rf, mult(), mult()))
+            L = lang(assets, assocs)
+            st = Static(L)
+            if not reuse or self.fields_unambiguous(st, names, assocs):
+                break
+            reuse = attempt < 15
         # step names per asset: a few own, some redefinitions of inherited ones
         for a in names:
             inherited = st.steps(supers[a]) if supers[a] else []
@@ -185,6 +194,18 @@ class LangGen:
                                           reaches=exprs if exprs else None))
             st.assets[a]['attackSteps'] = new_steps
         return L
+
+    @staticmethod
+    def fields_unambiguous(st, names, assocs):
+        """Every asset type (through itself or an ancestor) sees each field name at most once."""
+        for t in names:
+            seen = []
+            for a in assocs:
+                if st.is_sub(t, a['leftAsset']): seen.append(a['rightField'])
+                if st.is_sub(t, a['rightAsset']): seen.append(a['leftField'])
+            if len(seen) != len(set(seen)):
+                return False
+        return True
 
     def inherited_type(self, st, t, nm):
         for x in st.chain(t):
